@@ -13,24 +13,41 @@ def stripH (h : Handle) : Handle := { h with impl := none }
 /-- two handle tables agree up to the `impl` pointers -/
 def GSame (G G' : List (Nat × Handle)) : Prop := ∀ j, (aget G' j).map stripH = (aget G j).map stripH
 
-/-- `G'` has all the signal objects of `G` (possibly more, possibly more of them pinned) -/
-def GLe (G G' : List (Nat × Handle)) : Prop :=
+/-- `G'` has all the signal objects of `G` (possibly more), and a signal object that is pinned in `G'` was
+    already pinned in `G` (only `mkFun … (.fwd g)` pins) -/
+def GFw (G G' : List (Nat × Handle)) : Prop :=
   ∀ g h, aget G g = some h → ∃ h', aget G' g = some h' ∧ h'.obj = h.obj ∧ h'.fl = h.fl ∧ h'.trk = h.trk ∧
     (h.everFwd = true → h'.everFwd = true)
 
-theorem GLe.refl (G : List (Nat × Handle)) : GLe G G := fun _ h hh => ⟨h, hh, rfl, rfl, rfl, id⟩
+def GLe (G G' : List (Nat × Handle)) : Prop :=
+  GFw G G' ∧
+  (∀ g h', aget G' g = some h' → h'.everFwd = true → ∃ h, aget G g = some h ∧ h.everFwd = true ∧ h.fl = h'.fl)
+
+theorem GLe.refl (G : List (Nat × Handle)) : GLe G G :=
+  ⟨fun _ h hh => ⟨h, hh, rfl, rfl, rfl, id⟩, fun _ h hh he => ⟨h, hh, he, rfl⟩⟩
 
 theorem GSame.le {G G'} (h : GSame G G') : GLe G G' := by
-  intro g hd hg
-  have := h g
-  rw [hg] at this
-  cases hg' : aget G' g with
-  | none => rw [hg'] at this; simp at this
-  | some h' =>
+  refine ⟨?_, ?_⟩
+  · intro g hd hg
+    have := h g
+    rw [hg] at this
+    cases hg' : aget G' g with
+    | none => rw [hg'] at this; simp at this
+    | some h' =>
+      rw [hg'] at this
+      simp [stripH] at this
+      obtain ⟨a, b, c, d, e⟩ := this
+      exact ⟨h', rfl, a, b, c, fun x => by rw [e]; exact x⟩
+  · intro g h' hg' he
+    have := h g
     rw [hg'] at this
-    simp [stripH] at this
-    obtain ⟨a, b, c, d, e⟩ := this
-    exact ⟨h', rfl, a, b, c, fun x => by rw [e]; exact x⟩
+    cases hg : aget G g with
+    | none => rw [hg] at this; simp at this
+    | some hd =>
+      rw [hg] at this
+      simp [stripH] at this
+      obtain ⟨a, b, c, d, e⟩ := this
+      exact ⟨hd, rfl, by rw [← e]; exact he, b.symm⟩
 
 theorem GSame.none {G G'} (h : GSame G G') {j : Nat} (hj : aget G j = none) : aget G' j = none := by
   have := h j
@@ -39,7 +56,7 @@ theorem GSame.none {G G'} (h : GSame G G') {j : Nat} (hj : aget G j = none) : ag
   | none => rfl
   | some h' => rw [hg'] at this; simp at this
 
-theorem FunOK.mono {G G'} (hle : GLe G G') {fn : Fun} (h : FunOK G fn) : FunOK G' fn := by
+theorem FunOK.monoFw {G G'} (hle : GFw G G') {fn : Fun} (h : FunOK G fn) : FunOK G' fn := by
   intro o ts ht
   obtain ⟨g, hd, hg, ho, hflag⟩ := h o ts ht
   obtain ⟨h', hg', a, b, c, d⟩ := hle g hd hg
@@ -49,39 +66,80 @@ theorem FunOK.mono {G G'} (hle : GLe G G') {fn : Fun} (h : FunOK G fn) : FunOK G
   · rename_i ht; simpa [ht] using hflag
   · rename_i ht; simp [ht] at hflag; exact d hflag
 
-theorem SlotOK.mono {G G'} (hle : GLe G G') {sl : SlotB} (h : SlotOK G sl) : SlotOK G' sl :=
-  fun r fn h1 h2 => (h r fn h1 h2).mono hle
+theorem SlotOK.monoFw {G G'} (hle : GFw G G') {sl : SlotB} (h : SlotOK G sl) : SlotOK G' sl :=
+  fun r fn h1 h2 => (h r fn h1 h2).monoFw hle
 
+theorem FunOK.mono {G G'} (hle : GLe G G') {fn : Fun} (h : FunOK G fn) : FunOK G' fn := h.monoFw hle.1
+
+theorem SlotOK.mono {G G'} (hle : GLe G G') {sl : SlotB} (h : SlotOK G sl) : SlotOK G' sl := h.monoFw hle.1
+
+theorem OwnOK.mono {O : List (Nat × Nat)} {G G'} (hle : GLe G G') (h : OwnOK O G) : OwnOK O G' := by
+  intro p hp h' hg' he
+  obtain ⟨hd, hg, he0, hfl⟩ := hle.2 p.2 h' hg' he
+  rw [← hfl]; exact h p hp hd hg he0
+
+/-- replacing a handle by one of the same object; the last hypothesis (it is not pinned by this) is found
+    automatically when `h'` is `{ h with impl := … }` -/
 theorem GLe.aset_same {G : List (Nat × Handle)} {g : Nat} {h h' : Handle} (hg : aget G g = some h)
-    (a : h'.obj = h.obj) (b : h'.fl = h.fl) (c : h'.trk = h.trk) (d : h.everFwd = true → h'.everFwd = true) :
+    (a : h'.obj = h.obj) (b : h'.fl = h.fl) (c : h'.trk = h.trk) (d : h.everFwd = true → h'.everFwd = true)
+    (d' : h'.everFwd = true → h.everFwd = true := by first | exact id | (intro x; simp_all)) :
     GLe G (aset G g h') := by
-  intro j hj hjj
-  rw [aget_aset]
-  by_cases e : j = g
-  · subst e; rw [hg] at hjj; cases hjj
-    exact ⟨h', by simp, a, b, c, d⟩
-  · simp only [e, if_false]; exact ⟨hj, hjj, rfl, rfl, rfl, id⟩
+  refine ⟨?_, ?_⟩
+  · intro j hj hjj
+    rw [aget_aset]
+    by_cases e : j = g
+    · subst e; rw [hg] at hjj; cases hjj
+      exact ⟨h', by simp, a, b, c, d⟩
+    · simp only [e, if_false]; exact ⟨hj, hjj, rfl, rfl, rfl, id⟩
+  · intro j hj hjj he
+    rw [aget_aset] at hjj
+    by_cases e : j = g
+    · subst e; simp only [if_true] at hjj; cases hjj
+      exact ⟨h, hg, d' he, b.symm⟩
+    · simp only [e, if_false] at hjj; exact ⟨hj, hjj, he, rfl⟩
 
-theorem GLe.aset_new {G : List (Nat × Handle)} {g : Nat} (h' : Handle) (hg : aget G g = none) :
+/-- a new handle (not pinned: found by `rfl` when `h'` is written out) -/
+theorem GLe.aset_new {G : List (Nat × Handle)} {g : Nat} (h' : Handle) (hg : aget G g = none)
+    (hf : h'.everFwd = false := by rfl) :
     GLe G (aset G g h') := by
-  intro j hj hjj
-  rw [aget_aset]
-  by_cases e : j = g
-  · subst e; rw [hg] at hjj; contradiction
-  · simp only [e, if_false]; exact ⟨hj, hjj, rfl, rfl, rfl, id⟩
+  refine ⟨?_, ?_⟩
+  · intro j hj hjj
+    rw [aget_aset]
+    by_cases e : j = g
+    · subst e; rw [hg] at hjj; contradiction
+    · simp only [e, if_false]; exact ⟨hj, hjj, rfl, rfl, rfl, id⟩
+  · intro j hj hjj he
+    rw [aget_aset] at hjj
+    by_cases e : j = g
+    · subst e; simp only [if_true] at hjj; cases hjj
+      rw [hf] at he; contradiction
+    · simp only [e, if_false] at hjj; exact ⟨hj, hjj, he, rfl⟩
 
 theorem GLe.trans {A B C} (h1 : GLe A B) (h2 : GLe B C) : GLe A C := by
-  intro g h hg
-  obtain ⟨h', hg', a, b, c, d⟩ := h1 g h hg
-  obtain ⟨h'', hg'', a', b', c', d'⟩ := h2 g h' hg'
-  exact ⟨h'', hg'', by rw [a', a], by rw [b', b], by rw [c', c], fun x => d' (d x)⟩
+  refine ⟨?_, ?_⟩
+  · intro g h hg
+    obtain ⟨h', hg', a, b, c, d⟩ := h1.1 g h hg
+    obtain ⟨h'', hg'', a', b', c', d'⟩ := h2.1 g h' hg'
+    exact ⟨h'', hg'', by rw [a', a], by rw [b', b], by rw [c', c], fun x => d' (d x)⟩
+  · intro g h'' hg'' he
+    obtain ⟨h', hg', he', hf'⟩ := h2.2 g h'' hg'' he
+    obtain ⟨h, hg, he0, hf⟩ := h1.2 g h' hg' he'
+    exact ⟨h, hg, he0, by rw [hf, hf']⟩
 
 /-- changing the handle table -/
 theorem InvX.setG {off} {s : St} (h : InvX off s) {G' : List (Nat × Handle)} (hle : GLe s.G G')
     (hh : ∀ p ∈ G', ∀ i, p.2.impl = some i → (aget s.impls i).isSome = true) :
     InvX off { s with G := G' } :=
   ⟨h.keys, h.lt, h.ok, h.disj, hh, fun i v hv => (h.fwdS i v hv).mono hle,
-   fun i im hi c hc => (h.fwdC i im hi c hc).mono hle, h.noerr⟩
+   fun i im hi c hc => (h.fwdC i im hi c hc).mono hle, h.noerr, h.own.mono hle⟩
+
+/-- changing the handle table, possibly pinning signal objects (`mkFun … (.fwd g)`) -/
+theorem InvX.setGFw {off} {s : St} (h : InvX off s) {G' : List (Nat × Handle)} (hle : GFw s.G G')
+    (hh : ∀ p ∈ G', ∀ i, p.2.impl = some i → (aget s.impls i).isSome = true)
+    (ho : OwnOK s.ownedG G') :
+    InvX off { s with G := G' } :=
+  ⟨h.keys, h.lt, h.ok, h.disj, hh, fun i v hv => (h.fwdS i v hv).monoFw hle,
+   fun i im hi c hc => (h.fwdC i im hi c hc).monoFw hle, h.noerr, ho⟩
 
 theorem Good.setG {off} {s : St} (h : InvX off s) {G' : List (Nat × Handle)} (hle : GLe s.G G')
     (hh : ∀ p ∈ G', ∀ i, p.2.impl = some i → (aget s.impls i).isSome = true) :
@@ -102,7 +160,7 @@ theorem Good.gcImpl {s : St} (h : Inv s) (i : Nat) : Good (fun _ => 0) s (gcImpl
       obtain ⟨hh, hg⟩ := hc
       have hx : im.exec = 0 := by have := (h.ok i im hi).eh; omega
       apply Good.nullConnsList
-      refine ⟨⟨keys_nodup_adel h.keys i, ?_, ?_, ?_, ?_, h.fwdS, ?_, h.noerr⟩, ⟨Nat.le_refl _, ?_, ?_, fun _ => rfl⟩⟩
+      refine ⟨⟨keys_nodup_adel h.keys i, ?_, ?_, ?_, ?_, h.fwdS, ?_, h.noerr, h.own⟩, ⟨Nat.le_refl _, ?_, ?_, fun _ => rfl⟩⟩
       · intro j jm hj; simp only [aget_adel] at hj; split at hj
         · contradiction
         · exact h.lt j jm hj
@@ -170,7 +228,7 @@ theorem ensureImpl_good {s s' : St} {g i : Nat} (h : Inv s) (he : ensureImpl s g
         | some im => have := (h.lt _ _ hx).1; omega
       have hfresh : ∀ j jm, aget s.impls j = some jm → j ≠ s.next := by
         intro j jm hj e; subst e; rw [hnone] at hj; contradiction
-      refine ⟨⟨⟨?_, ?_, ?_, ?_, ?_, ?_, ?_, h.noerr⟩, ⟨by simp, ?_, ?_, fun _ => rfl⟩⟩, by simp, rfl,
+      refine ⟨⟨⟨?_, ?_, ?_, ?_, ?_, ?_, ?_, h.noerr, h.own.mono (GSame.aset_impl hg _).le⟩, ⟨by simp, ?_, ?_, fun _ => rfl⟩⟩, by simp, rfl,
               GSame.aset_impl hg _, ⟨{ hd with impl := some s.next }, by simp, rfl⟩, rfl, rfl, rfl⟩
       · exact keys_nodup_aset h.keys _ _
       · intro j jm hj
